@@ -41,6 +41,7 @@ CONSTANTS
   KF_RejectCommits,     \* D21: a rejected binary message commits the version / binds the peer tag
   KF_AKETimerAlways,    \* D22: every AKE-type message restarts the query-ignore window
   KF_SMPCorruptSilent,  \* D24: an unparsable SMP message is dropped silently, the run stays half done
+  KF_RequeryNewCommit,  \* D25: a repeated query while our DH-Commit is unanswered draws a new commitment
   KF_EarlySSID          \* D20b: the reported SSID is replaced as soon as an exchange derives its secret, not when it completes
 
 NoText == 0
@@ -447,6 +448,8 @@ RecvQuery(s, m, fresh) ==
      ELSE LET s1 == [s EXCEPT !.ver = v]
           IN IF (s1.ms = "enc" /\ s1.renc) \/ (s1.auth # "nil" /\ s1.rstep)
              THEN Res(s1, <<>>, NoText, FALSE, <<>>)
+             ELSE IF ~KF_RequeryNewCommit /\ s1.auth = "awDHKey" /\ s1.ax # 0
+             THEN LET s2 == WithOwnTag(s1) IN Res(s2, <<DHCommitMsg(s2, s2.aenc, s2.ax)>>, NoText, FALSE, <<>>)
              ELSE LET d == SendDHCommit(s1, fresh) IN Res(d.s, <<d.m>>, NoText, FALSE, <<>>)
 
 PlainPolicies(s, evs) ==
